@@ -149,7 +149,22 @@ func (s *S3Proxy) CreateBucket(ctx context.Context, input *s3.CreateBucketInput,
 	}
 	_, err := s.client.CreateBucket(ctx, input)
 	if err != nil {
-		return handleError(err)
+		err = handleError(err)
+		// the endpoint knows one account, which owns every proxied bucket:
+		// whether the bucket is the caller's is decided on the owner the
+		// gateway records for it
+		var apiErr s3err.APIError
+		if errors.As(err, &apiErr) && apiErr.Code == "BucketAlreadyOwnedByYou" {
+			data, aerr := s.GetBucketAcl(ctx, &s3.GetBucketAclInput{Bucket: input.Bucket})
+			if aerr == nil {
+				existing, perr := auth.ParseACL(data)
+				acct, ok := ctx.Value("account").(auth.Account)
+				if perr == nil && ok && existing.Owner != acct.Access {
+					return s3err.GetAPIError(s3err.ErrBucketAlreadyExists)
+				}
+			}
+		}
+		return err
 	}
 
 	var tagSet []types.Tag
